@@ -89,7 +89,12 @@ def owned_env(loop: VLoop = None, seed: int = 0, clock=None):
     prev_cur = dict(_CUR)
     _CUR.update(ft=FakeTime(loop) if clock is None else _ClockAdapter(clock), ctr=Counter32(seed + 13))
     repl = {}
-    for fname, fn in (('timestamp', _disp_timestamp), ('gen_nonce', _disp_gen_nonce), ('gen_nonce_64', _disp_gen_nonce_64)):
+    # Round 9: layer (1) is off unless VERIF_OWN_HELPERS=1.  Replacing the helpers hid every change made *inside* them (a
+    # timestamp() that never repeats a value and so runs ahead of the clock, seeded C03-22); layer (2) below owns the clock and the
+    # random source underneath the real helpers, which is enough for determinism.
+    import os as _os
+    for fname, fn in ((('timestamp', _disp_timestamp), ('gen_nonce', _disp_gen_nonce), ('gen_nonce_64', _disp_gen_nonce_64))
+                      if _os.environ.get('VERIF_OWN_HELPERS') == '1' else ()):
         orig = getattr(ndn_utils, fname, None)
         if orig is not None and orig is not fn:
             _ORIG.setdefault(fname, orig)
